@@ -306,4 +306,15 @@ def callNode (doc : Node) : Option Node :=
     | none => none
     | some on => findKey "workflow_call" (pairs on.content)
 
+/-- the hypotheses of the document-level theorem (AL.Props.C10Meta.document_interface_agrees_checked) -/
+def onOkB (cfg : Cfg) (on : Node) : Bool :=
+  (pairs on.content).all fun q =>
+    (cfg.lower q.1.value != "workflow_call" || q.1.value == "workflow_call") &&
+    (q.1.value != "workflow_call" || (saneB 3 q.2 && noPlaceholderB q.2))
+
+def docHypB (cfg : Cfg) (doc : Node) : Bool :=
+  match doc.content with
+  | [] => false
+  | root :: _ => (pairs root.content).all fun q => saneNodeB q.1 && (q.1.value != "on" || onOkB cfg q.2)
+
 end AL.CallMeta
